@@ -184,6 +184,19 @@ def execute(args):
         s3 = list(t2.series_a)
         t.reset_column_mapper(Sidecar(io.StringIO(json.dumps(alt))))
         s4 = list(t.series_a)
+        # assembly is row by row: a table holding only SOME of the rows (e.g. no row whose host template is selected, no n/a
+        # anywhere in the referenced column, a single row) must give exactly those rows' annotations
+        rows = case["rows"]
+        picks = {"host-never-selected": [i for i, r in enumerate(rows) if r["cells"]["h"] != "ok"],
+                 "referenced-column-without-n/a": [i for i, r in enumerate(rows) if r["cells"]["a"] != "na"],
+                 "referenced-column-only-n/a": [i for i, r in enumerate(rows) if r["cells"]["a"] == "na"],
+                 "single-row": [seed % len(rows)] if rows else [],
+                 "random-half": [i for i in range(len(rows)) if random.Random(seed * 7 + i).random() < 0.5]}
+        subs = {}
+        for nm, idx in picks.items():
+            if idx and len(idx) < len(rows):
+                dfs = pd.DataFrame({k: [v[i] for i in idx] for k, v in cols.items()}, dtype=str)
+                subs[nm] = (idx, list(TabularInput(dfs, sidecar=Sidecar(io.StringIO(json.dumps(sidecar)))).series_a))
     except Exception as ex:  # noqa
         return ci, [("raises", "assembly raised %s: %s; sidecar=%s table=%s" % (type(ex).__name__, ex, sidecar, cols))], None
     if len(s1) != len(expected):
@@ -196,6 +209,14 @@ def execute(args):
     if [tree(x) for x in s4] != [tree(x) for x in fresh_alt] or asked_alt != fresh_alt:
         problems.append(("history:switch-from", "an object that assembled with this sidecar first and was then given a sidecar without "
                          "references assembles %s, a fresh object %s; first sidecar=%s" % (s4, fresh_alt, json.dumps(sidecar))))
+    for nm, (idx, got_rows) in subs.items():
+        want_rows = [expected[i] for i in idx]
+        if len(got_rows) != len(want_rows) or any(tree(g) != tree(w) for g, w in zip(got_rows, want_rows)):
+            k = [j for j, (g, w) in enumerate(zip(got_rows, want_rows)) if tree(g) != tree(w)]
+            j = k[0] if k else 0
+            problems.append(("sub-table:" + nm, "template %r: a table holding only the rows %s (%s) assembles row %d as %r, prescribed %r; "
+                             "sidecar=%s" % (tmpl, idx, nm, idx[j] if idx else -1, got_rows[j] if j < len(got_rows) else None,
+                                             want_rows[j] if j < len(want_rows) else None, json.dumps(sidecar))))
     if before_vals != after_vals or before_cols != list(t.dataframe.columns):
         problems.append(("table-changed", "table values/columns changed by assembly"))
     elif before_dtypes != after_dtypes:
